@@ -36,12 +36,12 @@ CONSTANTS
   Side,        \* "dec" (receive side) or "sb" (send side): which machine this configuration runs
   HdrLen,      \* bytes of a message header (8)
   Peek, Slack, LoseTail,
-  Streams,     \* receive side: set of [frames |-> sequence of [id, kind, size, len], max |-> maximum message size, 0 = none]
-  Cuts,        \* "all": every segmentation;  "near": segments end only next to a header end or a frame end;
-               \* "ones": single bytes;  "sample": KSet
-  MaxRun,      \* a Read step may stand for up to MaxRun consecutive reads of the same size (1 = plain reads)
-  Scripts,     \* send side: set of sequences of messages; a message is the sequence of the sizes of its secured chunks
-  MaxIdle      \* send side: number of Pending / zero-byte answers of the socket per behaviour
+  Streams,     \* receive side: set of [frames |-> sequence of [id, kind, size, len], max |-> maximum message size (0 = none),
+               \*   cuts |-> "all": every segmentation;  "near": segments end only next to a header end or a frame end;
+               \*            "ones": single bytes;  "sample": KSet,
+               \*   run |-> a Read step may stand for up to `run' consecutive reads of the same size (1 = plain reads)]
+  Scripts      \* send side: set of [msgs |-> sequence of messages (a message = the sizes of its secured chunks), cuts, run,
+               \*   idle |-> number of Pending / zero-byte answers of the socket per behaviour]
 
 VARIABLES
   str,     \* the stream being received (an element of Streams)
@@ -54,12 +54,12 @@ VARIABLES
   sb,      \* the send buffer: [reading, end, pos, queue, buf]
   emitted, \* bytes the socket has accepted, in order
   secured, \* concatenation of the secured chunks of the messages accepted by SendBuffer::write
-  idle,    \* Pending / zero answers so far
+  nIdle,   \* Pending / zero answers so far
   busy,    \* a write has been attempted while the buffer was in the Reading state
   evt      \* observation record of the last action
 
 dvars == <<str, pos, nY, derr, eof>>
-svars == <<scr, nm, sb, emitted, secured, idle, busy>>
+svars == <<scr, nm, sb, emitted, secured, nIdle, busy>>
 vars == <<dvars, svars, evt>>
 
 -----------------------------------------------------------------------------
@@ -140,7 +140,8 @@ KSet(fr, p) ==
   IN {k \in KBase \cup near \cup {rem} : k >= 1 /\ k <= rem}
 
 SegSizes(fr, p) ==
-  LET rem == Total(fr) - p IN
+  LET rem == Total(fr) - p
+      Cuts == str.cuts IN
   CASE Cuts = "all"  -> 1..rem
     [] Cuts = "near" -> {k \in 1..rem : p + k \in NearPoints(fr) \cup {Total(fr)}}
     [] Cuts = "ones" -> {1}                                   \* the all-single-bytes schedule
@@ -149,9 +150,9 @@ SegSizes(fr, p) ==
 RunLens(fr, p, k) ==
   LET rem == Total(fr) - p
       full == (rem + k - 1) \div k
-      most == IF full > MaxRun THEN MaxRun ELSE full IN
-  IF Cuts = "ones" THEN {most}
-  ELSE IF MaxRun = 1 THEN {1}
+      most == IF full > str.run THEN str.run ELSE full IN
+  IF str.cuts = "ones" THEN {most}
+  ELSE IF str.run = 1 THEN {1}
   ELSE {c \in {1, 2, 3, 8, 9, 16, most} : c >= 1 /\ c <= most}
 
 Read(k, cnt) ==
@@ -223,25 +224,25 @@ Flatten(cs) == IF cs = <<>> THEN <<>> ELSE RCat(ChunkBytes(Head(cs).c, Head(cs).
 
 CanRead(b) == b.reading \/ b.pos # 0
 ShouldEncode(b) == b.queue # <<>> /\ ~CanRead(b)
-Proj(b) == [reading |-> b.reading, end |-> b.end, pos |-> b.pos, nq |-> Len(b.queue)]
+Proj(b) == [reading |-> b.reading, end |-> IF b.reading THEN b.end ELSE 0, pos |-> b.pos, nq |-> Len(b.queue)]
 
 SbEmpty == [reading |-> FALSE, end |-> 0, pos |-> 0, queue |-> <<>>, buf |-> 0]
 
 \* SendBuffer::write
 Submit ==
-  /\ nm < Len(scr)
+  /\ nm < Len(scr.msgs)
   /\ nm' = nm + 1
   /\ IF sb.reading
      THEN /\ ~busy /\ busy' = TRUE                              \* BadInvalidState, nothing changes
           /\ evt' = [ev |-> "Submit", ok |-> FALSE, chunks |-> <<>>, st |-> Proj(sb)]
           /\ UNCHANGED <<sb, secured>>
-     ELSE LET cs == MsgChunks(scr, nm + 1)
+     ELSE LET cs == MsgChunks(scr.msgs, nm + 1)
               b2 == [sb EXCEPT !.queue = @ \o cs] IN
           /\ sb' = b2
           /\ secured' = RCat(secured, Flatten(cs))
           /\ evt' = [ev |-> "Submit", ok |-> TRUE, chunks |-> [j \in 1..Len(cs) |-> cs[j].size], st |-> Proj(b2)]
           /\ UNCHANGED busy
-  /\ UNCHANGED <<scr, emitted, idle, dvars>>
+  /\ UNCHANGED <<scr, emitted, nIdle, dvars>>
 
 \* SendBuffer::encode_next_chunk, called as the transport loop calls it (should_encode_chunks)
 Encode ==
@@ -250,7 +251,7 @@ Encode ==
          b2 == [reading |-> TRUE, end |-> c.size, pos |-> sb.pos, queue |-> Tail(sb.queue), buf |-> c.c] IN
      /\ sb' = b2
      /\ evt' = [ev |-> "Encode", ok |-> TRUE, st |-> Proj(b2)]
-  /\ UNCHANGED <<scr, nm, emitted, secured, idle, busy, dvars>>
+  /\ UNCHANGED <<scr, nm, emitted, secured, nIdle, busy, dvars>>
 
 \* one call of read_into_async; the socket answers r: "acc" (k > 0 bytes accepted), "zero", "pend".
 \* `cnt' consecutive calls that each accept k bytes (fewer if fewer are offered) are one step.
@@ -283,12 +284,12 @@ PrefixOf(s, n) == RTake(s, n)
 
 Sock(r, k, cnt) ==
   /\ CanRead(sb)
-  /\ r \in {"pend", "zero"} => idle < MaxIdle
+  /\ r \in {"pend", "zero"} => nIdle < scr.idle
   /\ LET x == IF r = "acc" THEN SocksJ(sb, k, cnt) ELSE Socks(sb, 0, 1, 1, <<>>, 0)
          em2 == RCat(emitted, x.em) IN
      /\ sb' = x.b
      /\ emitted' = em2
-     /\ idle' = IF r = "acc" THEN idle ELSE idle + 1
+     /\ nIdle' = IF r = "acc" THEN nIdle ELSE nIdle + 1
      /\ evt' = [ev |-> "Sock", r |-> r, k |-> k, n |-> x.done, offered |-> x.offered, got |-> RLen(x.em),
                 tot |-> RLen(em2), dg |-> em2, ref |-> PrefixOf(secured, RLen(em2)), st |-> Proj(x.b)]
   /\ UNCHANGED <<scr, nm, secured, busy, dvars>>
@@ -305,17 +306,18 @@ Flush(b, em, fuel) ==
   ELSE LET x == Socks(b, 1000000, 1, 1, <<>>, 0) IN Flush(x.b, RCat(em, x.em), fuel - 1)
 
 End ==
-  /\ nm = Len(scr)
+  /\ nm = Len(scr.msgs)
   /\ LET x == Flush(sb, emitted, 64) IN
      /\ sb' = x.b
      /\ emitted' = x.em
      /\ evt' = [ev |-> "End", idle |-> SbIdle(x.b), tot |-> RLen(x.em), dg |-> x.em, ref |-> PrefixOf(secured, RLen(x.em)),
                 want |-> RLen(secured), st |-> Proj(x.b)]
-  /\ UNCHANGED <<scr, nm, secured, idle, busy, dvars>>
+  /\ UNCHANGED <<scr, nm, secured, nIdle, busy, dvars>>
 
 \* write sizes: "near" = the write ends 1 or 2 bytes into the chunk, in its middle, 1 byte before its end or at its end
 SockSizes(b) ==
-  LET off == IF b.reading THEN b.end - b.pos ELSE 0 IN
+  LET off == IF b.reading THEN b.end - b.pos ELSE 0
+      Cuts == scr.cuts IN
   CASE Cuts = "all"  -> 1..off
     [] Cuts = "near" -> {k \in 1..off : b.pos + k \in {1, 2, b.end \div 2, b.end - 1, b.end}}
     [] Cuts = "ones" -> {k \in {1} : off >= 1}
@@ -324,14 +326,14 @@ SockSizes(b) ==
 SockRuns(b, k) ==
   LET off == IF b.reading THEN b.end - b.pos ELSE 0
       full == (off + k - 1) \div k
-      most == IF full > MaxRun THEN MaxRun ELSE full IN
-  IF Cuts = "ones" THEN {most}
-  ELSE IF MaxRun = 1 THEN {1}
+      most == IF full > scr.run THEN scr.run ELSE full IN
+  IF scr.cuts = "ones" THEN {most}
+  ELSE IF scr.run = 1 THEN {1}
   ELSE {c \in {1, 2, 3, 8, most} : c >= 1 /\ c <= most}
 
 SbInit ==
-  /\ scr \in Scripts /\ nm = 0 /\ sb = SbEmpty /\ emitted = <<>> /\ secured = <<>> /\ idle = 0 /\ busy = FALSE
-  /\ evt = [ev |-> "Script", msgs |-> scr]
+  /\ scr \in Scripts /\ nm = 0 /\ sb = SbEmpty /\ emitted = <<>> /\ secured = <<>> /\ nIdle = 0 /\ busy = FALSE
+  /\ evt = [ev |-> "Script", msgs |-> scr.msgs]
 
 SbNext ==
   /\ evt.ev # "End"
@@ -345,10 +347,10 @@ SbNext ==
 SbDone == evt.ev = "End"
 
 SbChoices ==
-  (IF nm < Len(scr) /\ (~sb.reading \/ ~busy) THEN {"Submit"} ELSE {})
+  (IF nm < Len(scr.msgs) /\ (~sb.reading \/ ~busy) THEN {"Submit"} ELSE {})
   \cup (IF ShouldEncode(sb) THEN {"Encode"} ELSE {})
-  \cup (IF CanRead(sb) THEN {"acc1", "acc2", "acc3", "acc4"} \cup (IF idle < MaxIdle THEN {"pend", "zero"} ELSE {}) ELSE {})
-  \cup (IF nm = Len(scr) /\ ~CanRead(sb) THEN {"End"} ELSE {})
+  \cup (IF CanRead(sb) THEN {"acc1", "acc2", "acc3", "acc4"} \cup (IF nIdle < scr.idle THEN {"pend", "zero"} ELSE {}) ELSE {})
+  \cup (IF nm = Len(scr.msgs) /\ ~CanRead(sb) THEN {"End"} ELSE {})
 SbNextSim ==
   /\ evt.ev # "End"
   /\ \E a \in {RandomElement(SbChoices)} :
@@ -360,11 +362,12 @@ SbNextSim ==
          [] OTHER        -> \E k \in {RandomElement(SockSizes(sb))} : \E c \in {RandomElement(SockRuns(sb, k))} : Sock("acc", k, c)
 
 -----------------------------------------------------------------------------
-NoStream == [frames |-> <<>>, max |-> 0]
+NoStream == [frames |-> <<>>, max |-> 0, cuts |-> "all", run |-> 1]
+NoScript == [msgs |-> <<>>, cuts |-> "all", run |-> 1, idle |-> 0]
 
 Init ==
   IF Side = "dec"
-  THEN DecInit /\ scr = <<>> /\ nm = 0 /\ sb = SbEmpty /\ emitted = <<>> /\ secured = <<>> /\ idle = 0 /\ busy = FALSE
+  THEN DecInit /\ scr = NoScript /\ nm = 0 /\ sb = SbEmpty /\ emitted = <<>> /\ secured = <<>> /\ nIdle = 0 /\ busy = FALSE
   ELSE SbInit /\ str = NoStream /\ pos = 0 /\ nY = 0 /\ derr = FALSE /\ eof = FALSE
 
 Next == IF Side = "dec" THEN DecNext ELSE SbNext
